@@ -312,6 +312,34 @@ pub fn check<S: Src>(s: &mut S) {
     assert!(x.v.0 == wop(2, wop(2, a, b), b) && y.v.0 == b, "add-assign-ref");
 }
 """)
+    add("raw|enum-fields-and-by-field", "fields spelled as raw identifiers in enum variants (every family binds them) and on a struct field compared with by = ..",
+        """
+#[derive_ex(Clone, Debug, Default, PartialEq, Eq, PartialOrd, Ord, Hash)]
+pub enum T { #[default] A { r#type: Evil, r#match: Evil }, B(Evil) }
+#[derive_ex(PartialEq, Eq, PartialOrd, Ord, Hash)]
+pub struct Q { #[ord(by = crate::support::by_ord::<1, Evil>)] #[partial_ord(by = crate::support::by_po_total::<1, Evil>)] #[hash(key = crate::support::kk::<1, _>(&$))] pub r#fn: Evil, pub r#loop: Evil }
+""", CMP_ORACLE + """
+pub fn check<S: Src>(s: &mut S) {
+    let (x0, x1, y0, y1) = (s.u8(), s.u8(), s.u8(), s.u8());
+    let x = T::A { r#type: Evil(x0), r#match: Evil(x1) };
+    let y = if s.bool() { T::A { r#type: Evil(y0), r#match: Evil(y1) } } else { T::B(Evil(y0)) };
+    let r = match &y { T::A { .. } => lex(&[x0, x1], &[y0, y1]), T::B(_) => Ordering::Less };
+    assert!((x == y) == (r == Ordering::Equal), "enum-eq");
+    assert!(x.partial_cmp(&y) == Some(r) && x.cmp(&y) == r, "enum-cmp");
+    let c = x.clone();
+    assert!(c == x, "enum-clone");
+    let mut h = Rec::new();
+    Hash::hash(&x, &mut h);
+    assert!(h.len == 2 && h.buf[0] == x0 && h.buf[1] == x1, "enum-hash-feed");
+    assert!(matches!(T::default(), T::A { r#type: Evil(7), r#match: Evil(7) }), "enum-default");
+    let (p, q) = (Q { r#fn: Evil(x0), r#loop: Evil(x1) }, Q { r#fn: Evil(y0), r#loop: Evil(y1) });
+    let r2 = lex(&[x0 >> 1, x1], &[y0 >> 1, y1]);
+    assert!((p == q) == (r2 == Ordering::Equal) && p.partial_cmp(&q) == Some(r2) && p.cmp(&q) == r2, "struct-by-cmp");
+    let mut h2 = Rec::new();
+    Hash::hash(&p, &mut h2);
+    assert!(h2.len == 2 && h2.buf[0] == x0 >> 1 && h2.buf[1] == x1, "struct-hash-feed");
+}
+""", unwind=18)
     add("eq|shadowed-Eq-and-Fn", "Eq and by = ... with `Eq` and `Fn` shadowed at the use site",
         """
 #[derive_ex(PartialEq, Eq, PartialOrd, Ord)]
